@@ -40,10 +40,27 @@ def run(rep, tier, seed, replay):
             g.append(cc)
             cases.append(cc)
         groups.append(g)
-    walklib.run_cases(cases)
+    # stacks of entry filters over path walks: the yielded entries are exactly those every layer keeps (from the recorded tree alone)
+    from props import c13
+    direct = [c for c in walklib.gen_cases(seed + 3, n * 2, stack=c13.filter_stack, bounds="none", mode="p", link="f") if c.labels["base"] in ("root", "subdir")]
+    if replay is not None:
+        direct = []
+    walklib.run_cases(cases + direct)
+    for c in direct:
+        if not c.head.startswith("root="):
+            continue
+        obs, yl = c13.expected(c)
+        got = [p for p, *_ in walklib.ok_items(c.f.get("items"))]
+        if got == yl:
+            rep.stats["direct: yielded = the entries every layer keeps"] += 1
+        else:
+            extra = [g for g in got if g not in yl]
+            missing = [o for o in yl if o not in got]
+            rep.violation("oracle", ("a stack of filters yields %r, which one of them discards" % extra[0]) if extra else ("a stack of filters loses %r, which every one of them keeps and which is not beneath a discarded tree" % (missing[0] if missing else "?")), c.describe(), impl=c.impl[:400])
+    walklib.correspondence_step(rep, direct, "filter stacks")
     findings, _ = common.load_findings("C16")
     finding_ids = {f["id"] for f in findings}
-    rep.evaluations = len(cases)
+    rep.evaluations = len(cases) + len(direct)
     walklib.correspondence_step(rep, cases, "permuted stacks")
     for g in groups:
         c0 = g[0]
